@@ -513,6 +513,39 @@ theorem C17_fctl_refusals (cw ch : Nat) (fc : FrameControl) (hinv : FcInv cw ch 
     · intro hh
       exact ⟨_, by rw [if_pos (by omega)]⟩
 
+/-- The stream writer's setters: a call accepted during a session (`fcStep … (.streamSet op)`) changes
+nothing that is written for the current frame, and in the **next** frame's `fcTL` (`nextFrame`:
+`set_fctl` with the copy) exactly the fields the setter names — every other field is the copy's, the
+sequence number the writer's.  The frame control written then again satisfies `FcInv` / `FcInRange`,
+so by `C17_fctl_roundtrip` the decoder reads back all nine fields.  A refused call changes nothing. -/
+theorem C17_fctl_stream_setters (cw ch : Nat) (wfc c : FrameControl) (op : FcOp) :
+    (∀ c', applyOp cw ch c op = .ok c' →
+      fcStep cw ch ⟨wfc, some c⟩ (.streamSet op) = (⟨wfc, some c'⟩, some (.ok ()), none) ∧
+      (fcStep cw ch ⟨wfc, some c'⟩ .nextFrame).2.2 = some (setFctl wfc c') ∧
+      (setFctl wfc c').seq = wfc.seq ∧
+      setFctl wfc c' = (match op with
+        | .dimension w h => { setFctl wfc c with width := w, height := h }
+        | .position x y => { setFctl wfc c with x := x, y := y }
+        | .resetDimension => { setFctl wfc c with width := cw - c.x, height := ch - c.y }
+        | .resetPosition => { setFctl wfc c with x := 0, y := 0 }
+        | .delay n d => { setFctl wfc c with delayNum := n, delayDen := d }
+        | .blend b => { setFctl wfc c with blend := b }
+        | .dispose o => { setFctl wfc c with dispose := o }) ∧
+      (FcInv cw ch c → FcInRange c → op.InRange → U32 cw → U32 ch → U32 wfc.seq →
+        FcInv cw ch (setFctl wfc c') ∧ FcInRange (setFctl wfc c'))) ∧
+    (∀ e, applyOp cw ch c op = .error e →
+      fcStep cw ch ⟨wfc, some c⟩ (.streamSet op) = (⟨wfc, some c⟩, some (.error e), none)) := by
+  constructor
+  · intro c' h
+    refine ⟨by simp only [fcStep, h], rfl, rfl, ?_, ?_⟩
+    · rw [applyOp_fields cw ch c c' op h]
+      cases op <;> rfl
+    · intro hi hr ho hcw hch hs
+      exact setFctl_inv cw ch wfc c' (applyOp_inv cw ch c c' op hi h)
+        (applyOp_inRange cw ch c c' op hcw hch hr ho h) hs
+  · intro e h
+    simp only [fcStep, h]
+
 /-! ## Refusal -/
 
 /-- Which text chunks are refused, for each kind: exactly those that cannot be represented — keyword
@@ -628,6 +661,12 @@ example : ((writeHeader toyCodec refusedHeader).1.map (fun c => typeName c.1), (
 -- setters: a refused call changes nothing, an accepted one is visible
 example : applyOps 10 8 (initialFc 10 8) [.position 3 0, .dimension 7 8, .position 3 0, .delay 1 2, .dispose 2] =
     ⟨0, 7, 8, 3, 0, 1, 2, 2, 0⟩ := by decide
+-- stream writer: a setter during the first frame of a session shows in the second frame, with the
+-- writer's sequence number; the first frame is written with the writer's own frame control
+example : (fcRun 10 8 ⟨{ initialFc 10 8 with seq := 5 }, none⟩
+    [.openStream true, .streamSet (.dispose 2), .streamSet (.dimension 99 1), .nextFrame, .closeStream, .image true] [] []).2 =
+    ([.ok (), .error .outOfBounds],
+     [⟨5, 10, 8, 0, 0, 1, 30, 0, 0⟩, ⟨5, 10, 8, 0, 0, 1, 30, 2, 0⟩, ⟨5, 10, 8, 0, 0, 1, 30, 2, 0⟩]) := by decide
 example : FcInv 10 8 ⟨0, 7, 8, 3, 0, 1, 2, 2, 0⟩ ∧ FcInRange ⟨0, 7, 8, 3, 0, 1, 2, 2, 0⟩ ∧ SeqOk none 0 ∧ SeqOk (some 4) 5 := by
   decide
 
